@@ -281,12 +281,14 @@ def run(tier):
         # the derived discharge curve of a vehicle type and the curve a component's battery is built with (components.py)
         import c01
         c01.components_glue(rep, tier_, sd)
-    return corr.standard_run("C03", tier, [UNIT], 600, 6000, TRUSTED, RULE, extra=extra)
+    # the battery unit exercises the clamping to a curve's own maximum through Battery.load/unload (round-3 seed C03-s6)
+    import c01
+    return corr.standard_run("C03", tier, [UNIT, c01.UNIT], {"curve": 600, "battery": 250}, {"curve": 6000, "battery": 2500}, TRUSTED, RULE, extra=extra)
 
 
 def replay(payload):
     inp = payload["input"]
-    if inp.get("unit") == "glue":
+    if inp.get("unit") in ("glue", "battery"):
         import c01
         return c01.replay(payload)
     case = inp["case"]
